@@ -66,9 +66,13 @@ def _single_def(fn, l):
     return None
 
 
-def bits(fn, o, depth=0):
-    """upper bound on the magnitude (in bits) of an integer operand, or 999 if unknown"""
-    if depth > 8:
+FX = None      # set by a rule file to enable return-width summaries of local integer helpers
+
+
+def bits(fn, o, depth=0, env=None):
+    """upper bound on the magnitude (in bits) of an integer operand, or 999 if unknown.
+    env: optional {param local: bits} used when summarising a helper for one call site."""
+    if depth > 10:
         return 999
     if o[0] == 'k':
         m = _CONST_INT.match(o[2].strip())
@@ -85,21 +89,35 @@ def bits(fn, o, depth=0):
     ty = fn.local_ty(l)
     d = _single_def(fn, l)
     own = INT_BITS.get(ty, 999)
+    if env is not None and l in env:
+        return min(own, env[l])
     if d is None:
         return own
     b, k, payload = d
     if k == 'A':
         rv = payload
         if rv[0] == 'use':
-            return min(own, bits(fn, rv[1], depth + 1))
+            src = rv[1]
+            if src[0] in ('c', 'm') and len(src[1][1]) == 1 and isinstance(src[1][1][0], list) and src[1][1][0][0] == 'f' and src[1][1][0][1] in ('0', 0):
+                # `(_t.0)` of a checked-arithmetic tuple: the width of the operation itself
+                dd = _single_def(fn, src[1][0])
+                if dd and dd[1] == 'A' and dd[2][0] == 'bin':
+                    rv = dd[2]
+                    a, c = bits(fn, rv[2], depth + 1, env), bits(fn, rv[3], depth + 1, env)
+                    if rv[1] in ('Mul', 'MulWithOverflow'):
+                        return min(own, a + c)
+                    if rv[1] in ('Add', 'Sub', 'AddWithOverflow', 'SubWithOverflow'):
+                        return min(own, max(a, c) + 1)
+                return own
+            return min(own, bits(fn, src, depth + 1, env))
         if rv[0] == 'cast':
             src_ty = op_type(fn, rv[2])
-            sb = bits(fn, rv[2], depth + 1)
+            sb = bits(fn, rv[2], depth + 1, env)
             if src_ty in INT_BITS:
                 sb = min(sb, INT_BITS[src_ty])
             return min(own, sb)
         if rv[0] == 'bin':
-            a, c = bits(fn, rv[2], depth + 1), bits(fn, rv[3], depth + 1)
+            a, c = bits(fn, rv[2], depth + 1, env), bits(fn, rv[3], depth + 1, env)
             if rv[1] in ('Mul', 'MulWithOverflow'):
                 return min(own, a + c)
             if rv[1] in ('Add', 'Sub', 'AddWithOverflow', 'SubWithOverflow'):
@@ -117,10 +135,22 @@ def bits(fn, o, depth=0):
             nm = f.get('inst') or f['def']
             if _FROM.search(nm) or _FROM.search(f['def']):
                 src_ty = op_type(fn, t['a'][0])
-                sb = bits(fn, t['a'][0], depth + 1)
+                sb = bits(fn, t['a'][0], depth + 1, env)
                 if src_ty in INT_BITS:
                     sb = min(sb, INT_BITS[src_ty])
                 return min(own, sb)
+            if re.search(r'::(saturating_sub|checked_sub|wrapping_sub|min)$', nm):
+                a0 = bits(fn, t['a'][0], depth + 1, env)
+                if nm.endswith('::min') and len(t['a']) > 1:
+                    a0 = min(a0, bits(fn, t['a'][1], depth + 1, env))
+                return min(own, a0)
+            if FX is not None and nm in FX.fns and depth < 6:
+                # return-width summary of a local integer helper for this call site's argument widths
+                crec = FX.fns[nm]
+                cfn = F(crec)
+                if crec['argc'] == len(t['a']) and all(cfn.local_ty(i + 1) in INT_BITS for i in range(crec['argc'])) and cfn.local_ty(0) in INT_BITS and len(cfn.g) <= 6:
+                    cenv = {i + 1: bits(fn, t['a'][i], depth + 1, env) for i in range(crec['argc'])}
+                    return min(own, bits(cfn, ['c', [0, []]], depth + 1, cenv))
         return own
     return own
 
@@ -178,6 +208,11 @@ def _place_key(fn, o):
     return repr(o[1])
 
 
+def _any_const(o):
+    """a literal or named constant operand"""
+    return o[0] == 'k'
+
+
 def guard_discharged(fn, b, op, ops):
     """(b): x+1 under x<MAX / x!=MAX ; x-1 under x>MIN / x>0 / x!=0"""
     if op not in ('Add', 'Sub') or len(ops) != 2:
@@ -205,22 +240,55 @@ def guard_discharged(fn, b, op, ops):
                 return is_bound_const(d[2][1], want_max)
         return False
 
+    def is_type_max(o):
+        if o[0] == 'k':
+            sx = o[2].replace('const ', '').strip()
+            return bool(re.search(r'(^|::)MAX$', sx)) or _is_max_literal(sx, o[1])
+        if o[0] in ('c', 'm') and not o[1][1]:
+            d = _single_def(fn, o[1][0])
+            if d and d[1] == 'A' and d[2][0] == 'use' and d[2][1][0] == 'k':
+                return is_type_max(d[2][1])
+        return False
+
+    def is_const(o):
+        if o[0] == 'k':
+            return True
+        if o[0] in ('c', 'm') and not o[1][1]:
+            d = _single_def(fn, o[1][0])
+            return bool(d and d[1] == 'A' and d[2][0] == 'use' and d[2][1][0] == 'k')
+        return False
+
     def pred(cop, a, c2, bb):
         ka, kc = _place_key(fn, a), _place_key(fn, c2)
         if op == 'Add':
-            if ka == xkey and is_bound_const(c2, True):
+            # x on the left, constant bound on the right
+            if ka == xkey and is_const(c2):
+                tm = is_type_max(c2)
                 if cop == 'Lt':
                     return True
-                if cop == 'Ne':
-                    return True
-                if cop == 'Eq' or cop == 'Ge':
+                if cop == 'Ge':
                     return False
-            if kc == xkey and is_bound_const(a, True):
+                if cop == 'Le' and not tm:
+                    return True
+                if cop == 'Gt' and not tm:
+                    return False
+                if cop == 'Ne' and tm:
+                    return True
+                if cop == 'Eq' and tm:
+                    return False
+            if kc == xkey and is_const(a):
+                tm = is_type_max(a)
                 if cop == 'Gt':
                     return True
-                if cop == 'Ne':
+                if cop == 'Le':
+                    return False
+                if cop == 'Ge' and not tm:
                     return True
-                if cop in ('Eq', 'Le'):
+                if cop == 'Lt' and not tm:
+                    return False
+                if cop == 'Ne' and tm:
+                    return True
+                if cop == 'Eq' and tm:
                     return False
         else:
             if ka == xkey and is_bound_const(c2, False):
@@ -267,7 +335,10 @@ def _is_min_literal(s, ty):
 
 
 def zero_test_discharged(fn, b, ops):
-    """(c): divisor dominated by the non-zero edge of a test against 0"""
+    """(c): divisor dominated by the non-zero edge of a test against 0 (or a non-zero constant)"""
+    cv = const_int(fn, ops[0])
+    if cv is not None and cv != 0:
+        return True
     dkey = _place_key(fn, ops[0])
     if dkey is None:
         return False
